@@ -122,13 +122,13 @@ func init() {
 		runner.Part{Scenario: "simhost", Params: p("sm", "3", "hosts", "3", "snapshot", "5", "overhead", "0", "ppartition", "12", "pheal", "10", "pcrash", "12", "prestart", "60", "fsyield", "400", "ops", "40", "readmix", "10"), Share: 2},
 		// two shards per host: snapshot jobs that queue behind another shard's on the only snapshot worker, crashes and shard restarts meanwhile
 		runner.Part{Scenario: "simhost", Params: p("ballast", "1", "snapworkers", "1", "snapshot", "5", "overhead", "0", "psnapreq", "20", "smyield", "300", "fsyield", "200", "pcrash", "10", "pstop", "6", "ppartition", "8", "ops", "40"), Share: 1})
-	sh("C17", 120, 1200, runner.Part{Scenario: "simhost", Share: 2},
+	sh("C17", 120, 1200, runner.Part{Scenario: "simhost", Share: 1},
 		runner.Part{Scenario: "simhost", Params: p("pmember", "10", "ptransfer", "8", "ppartition", "8"), Share: 1},
 		// few full members plus witnesses / non-voting members, crashes in the middle of saves
 		runner.Part{Scenario: "simhost", Params: p("hosts", "3", "voters", "1", "memberbias", "2", "pmember", "40", "pcrash", "15", "prestart", "80", "fsyield", "400", "readmix", "20"), Share: 1},
 		runner.Part{Scenario: "simhost", Params: p("hosts", "4", "voters", "2", "memberbias", "1", "pmember", "25", "pcrash", "8", "ppartition", "8", "quiesce", "1"), Share: 1},
 		// several replicas of an on-disk state machine shard lag at once and need streamed snapshots
-		runner.Part{Scenario: "simhost", Params: p("sm", "3", "hosts", "5", "snapshot", "5", "overhead", "0", "ppartition", "12", "groupsplit", "60", "pheal", "8", "pcrash", "4", "ops", "40"), Share: 1},
+		runner.Part{Scenario: "simhost", Params: p("sm", "3", "hosts", "5", "snapshot", "5", "overhead", "0", "ppartition", "12", "groupsplit", "60", "pheal", "8", "pcrash", "4", "ops", "40"), Share: 2},
 		// two shards per host sharing the engine's workers: shards stopped and started again, crashes, a busy snapshot worker
 		runner.Part{Scenario: "simhost", Params: p("ballast", "1", "snapworkers", "1", "snapshot", "5", "overhead", "0", "pstop", "10", "prestart", "80", "smyield", "400", "pcrash", "6", "ppartition", "6"), Share: 1},
 		// membership changes requested of leaders that are cut off (the entry is appended, never committed, overwritten), leadership going back and forth
